@@ -847,6 +847,11 @@ func (g *gen) scenario(id int) scenario {
 	kinds := []string{"absent", "absent", "same", "same", "retyped", "retyped", "retyped", "retyped", "retyped", "retyped",
 		"renamed", "extra", "extra", "missing", "missing", "retyped-dropped", "retyped-dropped", "same-dropped", "emptied", "hand-written-added", "hand-written-added"}
 	kind := g.pick(kinds)
+	// two calls of one plugin on one line; half of the time with an old version that had only the first of them
+	hasPair := g.r.Intn(100) < 25
+	if hasPair && g.r.Intn(100) < 50 {
+		kind = "missing"
+	}
 	files := []string{"a.go"}
 	if g.r.Intn(100) < 30 {
 		files = append(files, "b.go")
@@ -867,7 +872,7 @@ func (g *gen) scenario(id int) scenario {
 		}
 		sh.chains = append(sh.chains, g.chain(i, files[g.r.Intn(len(files))], depth, &ch, kind == "renamed" && i == 0))
 	}
-	if g.r.Intn(100) < 18 {
+	if hasPair {
 		sh.chains = append(sh.chains, g.pair(len(sh.chains), files[g.r.Intn(len(files))], &ch))
 	}
 	for _, w := range g.wanted {
@@ -952,7 +957,7 @@ func (g *gen) scenario(id int) scenario {
 				pairAt = i
 			}
 		}
-		if pairAt >= 0 && g.r.Intn(100) < 60 {
+		if pairAt >= 0 && g.r.Intn(100) < 80 {
 			// the old sources had only the first of the two calls that share a line
 			for i, c := range sh.chains {
 				if i == pairAt {
